@@ -200,7 +200,7 @@ theorem run_lit (ρ : List FunDef) : ∀ (f : Nat) (j : Job) (s : St), Lit n o0 
               ht2.setCell l _ hnl (fun hlt => by
                 have := ht2.safe r hlt
                 exact ⟨this.1, rfl⟩)
-            have hclone := ht2.clone r
+            have hclone := (tag_lit ht2 r).clone r
             cases op with
             | refAssign =>
               simp only []
@@ -212,7 +212,7 @@ theorem run_lit (ρ : List FunDef) : ∀ (f : Nat) (j : Job) (s : St), Lit n o0 
               · exact ht2.setVal l _ hconst
               · split
                 · exact hcopy
-                · generalize hcl : cloneIfNecessary t2 r = rc at hclone ⊢
+                · generalize hcl : cloneIfNecessary (tagParamAlias t2 r) r = rc at hclone ⊢
                   obtain ⟨oc, t3⟩ := rc
                   cases oc <;> (try simp only []) <;> try exact hclone.1
                   rename_i r2
